@@ -1,6 +1,15 @@
 from vdriver import Group
+import importlib.util, os
 META = {'level': 'other'}
+def _c19():
+    spec = importlib.util.spec_from_file_location('chk_C19_for_C20', os.path.join(os.path.dirname(os.path.abspath(__file__)), 'C19.py'))
+    m = importlib.util.module_from_spec(spec)
+    spec.loader.exec_module(m)
+    return m
 def groups(tier):
+    # the meaning of the PoW predicate the admission relies on: C19's obligations on handshake_pow_valid and its bit counter
+    return _groups(tier) + [g for g in _c19().groups(tier) if g.name in ('node.clz', 'node.handshake')]
+def _groups(tier):
     K = dict(unit='handshake', harness='C20/admit.c', unwind=3, kind='skeleton', checks=[], skeleton=True, replay='cooldown',
              bound='control-flow skeleton (E3) with value tags')
     return [Group('perform_handshake.admission', entry='h_perform',
@@ -12,6 +21,8 @@ def groups(tier):
 
 
 def replay(group, trace):
+    if group.name.startswith('node.'):
+        return None, 'no native replay for this group'
     """the REAL Node: a valid handshake, then (inside the cooldown) the same claimed peer with another key and an invalid nonce"""
     import sys, os
     root = os.path.dirname(os.path.dirname(os.path.abspath(__file__)))
